@@ -11,6 +11,7 @@ CLAIMED = {
     "C13": ("full", "Theorem C13_try_exact over all shapes/modes/hold assignments; correspondence + monitor on the "
             "implementation over every template x assignment", "7 C13", "structural induction + differential execution"),
 }
+CLAIMED["C07"] = ("full (ZST raw locks excluded; compile-time half via the C15 corpus)", "Theorems C07_sorting_exact, C07_retry_exact, C07_monitor: try_new accepts exactly the inputs in which no lock / owned unit is reachable twice, for every shape and address assignment; the same monitor is evaluated on try_new(..).is_some() of the implementation", "7 C07", "list lemmas: sorted => adjacent test <=> not NoDup; HashSet scan <=> not NoDup")
 PENDING = {}
 props = [json.loads(l) for l in open(os.path.join(V, "properties.jsonl"))]
 checks, na = [], []
